@@ -8,6 +8,12 @@ import os
 import sys
 
 
+def _tuplify(x):
+    if isinstance(x, list):
+        return tuple(_tuplify(i) for i in x)
+    return x
+
+
 def main(argv=None) -> int:
     ap = argparse.ArgumentParser()
     ap.add_argument("prop")
@@ -23,9 +29,22 @@ def main(argv=None) -> int:
         kinds = sorted({v.kind for v in vs})
         want = doc.get("kind")
         hit = [v for v in vs if want is None or v.kind == want]
-        for v in vs[:10]:
+        mode = "case"
+        if not hit and doc.get("job") is not None:
+            # history-dependent failure (state carried from earlier cases of the same job): replay the whole job
+            mode = "job"
+            r = mod.run(_tuplify(doc["job"]))
+            vs = r.violations
+            kinds = sorted({v.kind for v in vs})
+            norm = json.loads(json.dumps(doc["case"], default=str))
+            hit = [v for v in vs if v.kind == want and json.loads(json.dumps(v.case, default=str)) == norm]
+            if not hit:
+                # which case of the job fails first depends on what ran before it in the same process: the same kind of failure in the
+                # same cluster within this job counts as reproduced
+                hit = [v for v in vs if v.kind == want and v.cluster == doc.get("cluster")]
+        for v in (hit or vs)[:10]:
             print(f"  {v.kind}: {v.detail[:500]}")
-        print(f"REPLAY-RESULT property={pid} reproduced={bool(hit)} kinds={kinds}")
+        print(f"REPLAY-RESULT property={pid} reproduced={bool(hit)} mode={mode} kinds={kinds[:12]}")
         return 1 if hit else 0
     from . import runner
 
